@@ -243,8 +243,16 @@ class VersionIndex:
             # Back up the version index file first.
             shutil.copy2(src=path, dst=backup_copy_path)
 
-        # Run the migration.
+        # Run the migration. All of its steps must take effect together: the
+        # connection commits DDL statements right away unless a transaction is
+        # open, and an upgrade that is interrupted after `CREATE TABLE` would
+        # leave the temporary table behind - every later command would then
+        # fail with "table version_index_new already exists". The temporary
+        # table of such an interrupted upgrade (by an earlier version of this
+        # code) is empty and is discarded.
         try:
+            conn.execute("BEGIN")
+            conn.execute(q.v1_to_v2_drop_tmp_table)
             conn.execute(q.v1_to_v2_create_tmp_table)
             conn.execute(q.v1_to_v2_migrate_tmp_table)
             conn.execute(q.v1_to_v2_drop_old_table)
